@@ -93,6 +93,19 @@ def run(rep, tier, seed):
     h = core.run_bbh(lines)
     m = core.run_bbm(lines)
     diffs = core.diff_answers(cs, h, m)
+    # the Python-facing wrappers, consecutive questions about one program on ONE thread
+    rngw = core.mkrng(seed, 'C06w')
+    wcs = []
+    for i, p in enumerate(gen.corpus_2x2()[::7] + gen.random_progs(rngw, 700 if tier == 'quick' else 7000)):
+        r = rngw.choice([3, 4, 5])
+        for g in rngw.sample(GOALS, 3):
+            wcs.append((f'w{i}{g}', f'cpspy|{g}|{p}|{r}'))
+    wl = [f'{i}|{l}' for i, l in wcs]
+    hw = core.run_bbh(wl, threads=1)
+    mw = core.run_bbm(wl)
+    diffs += core.diff_answers(wcs, hw, mw)
+    cs = cs + [(i, l.replace('cpspy|', 'cps|', 1)) for i, l in wcs]
+    h.update(hw)
     fals, ntrue, nprogs = falsified(cs, h, 10000 if tier == 'quick' else 100000)
     fails = []
     nf2 = 0
